@@ -513,6 +513,9 @@ func (p *Program) writersObligations(prop string) []*Oblig {
 			}
 		}
 		name := fmt.Sprintf("%s.%s.%s#writers", ws.Pkg, ws.Type, ws.Field)
+		if ws.Readers {
+			name = fmt.Sprintf("%s.%s.%s#readers", ws.Pkg, ws.Type, ws.Field)
+		}
 		o := &Oblig{Name: name, Kind: "writers", Status: "unsat", Solver: "ssa-scan", Props: []string{prop}, Pos: ws.Line}
 		found := false
 		var bad []string
@@ -577,7 +580,14 @@ func (p *Program) writersObligations(prop string) []*Oblig {
 					}
 					viol := ""
 					switch x := in.(type) {
+					case *ssa.UnOp:
+						if ws.Readers && x.Op == token.MUL && isField(x.X) {
+							viol = "reads"
+						}
 					case *ssa.Store:
+						if ws.Readers {
+							break
+						}
 						if ws.Whole {
 							// the field is replaced as a whole: directly, or through any pointer to
 							// a value of the field's (named struct) type
@@ -593,9 +603,9 @@ func (p *Program) writersObligations(prop string) []*Oblig {
 						} else if derived(x.Val, 0) {
 							viol = "stores the address of"
 						}
-					case *ssa.UnOp, *ssa.FieldAddr, *ssa.IndexAddr, *ssa.DebugRef:
+					case *ssa.FieldAddr, *ssa.IndexAddr, *ssa.DebugRef:
 					default:
-						if ws.Whole {
+						if ws.Whole || ws.Readers {
 							break
 						}
 						for _, op := range in.Operands(nil) {
@@ -628,6 +638,9 @@ func (p *Program) writersObligations(prop string) []*Oblig {
 		} else if len(bad) > 0 {
 			o.Status = "sat"
 			o.Output = "field written outside its declared writers: " + strings.Join(bad, "; ")
+			if ws.Readers {
+				o.Output = "field read outside its declared readers: " + strings.Join(bad, "; ")
+			}
 		}
 		for _, f := range ws.Funcs {
 			fk := ws.Pkg + "." + f
